@@ -230,15 +230,15 @@ theorem dsis_rudiv (w : Nat) (hw : 0 < w) (a : DSIS) (o : SI) (order : List Nat)
   have mc := collapse_sound (WFw w) (joinOK w) a c ha hc x hx
   exact (udiv_sound o c r order ho.wf wc.1 (by rw [ho.bits, wc.2]) ho.nb mc.1 h).2 y x hy mc hx0
 
-/-- **`o % set`** (`__rmod__` = `o % set.collapse()`) — members of the set aligned (the collapsed divisor inherits it) -/
+/-- **`o % set`** (`__rmod__` = `o % set.collapse()`), division by zero exempt -/
 theorem dsis_rmod (w : Nat) (hw : 0 < w) (a : DSIS) (o : SI) (r : SI) (hab : a.bits = w)
-    (ha : ∀ s, s ∈ a.sis → WFw w s ∧ s.Aligned) (ho : NE w o) (h : a.rmod o = .ok r)
+    (ha : ∀ s, s ∈ a.sis → WFw w s) (ho : NE w o) (h : a.rmod o = .ok r)
     (x y : Nat) (hx : a.mem x) (hy : o.mem y) (hx0 : x ≠ 0) : r.mem (y % x) := by
   unfold DSIS.rmod at h
   obtain ⟨c, hc, h⟩ := bind_ok' h
-  have wc := collapse_WFw w hw a c hab (fun s hs => (ha s hs).1) hc
-  have mc := collapse_sound (WFw w) (joinOK w) a c (fun s hs => (ha s hs).1) hc x hx
-  exact (mod_sound w o c r ⟨ho.wf, ho.bits⟩ wc ho.nb mc.1 (collapse_aligned w a c ha hc) h).2 y x hy mc hx0
+  have wc := collapse_WFw w hw a c hab ha hc
+  have mc := collapse_sound (WFw w) (joinOK w) a c ha hc x hx
+  exact (mod_sound_full w o c r ⟨ho.wf, ho.bits⟩ wc ho.nb mc.1 h).2 y x hy mc hx0
 
 /-! ### eval -/
 
